@@ -71,9 +71,11 @@ Lit(f, n, sep, sfx) == [base |-> f.base, prefix |-> f.prefix, digits |-> DigitCh
 IntLitSpellings ==
   LET plain == {Lit(f, n, "none", s) : f \in Forms, n \in Boundaries, s \in AllSuffixes}
       seps == IF Lang # "c++" THEN {}
-              ELSE {Lit(f, n, st, s) : f \in Forms, n \in Boundaries, st \in {"first", "last", "group"},
+              ELSE {Lit(f, n, st, s) : f \in Forms, n \in Boundaries, st \in IF Thorough THEN {"first", "last", "group"} ELSE {"first", "group"},
                                        s \in IF Thorough THEN AllSuffixes ELSE CanonSuffixes}
-  IN  {l \in plain \cup seps : StyleDistinct(l) /\ IntLitType(l, P) # "?"}
+      \* quick: every suffix spelling only for decimal and lower-case hex, canonical suffixes for the other forms
+      keep(l) == Thorough \/ l.suffix \in CanonSuffixes \/ l.prefix \in {<<>>, <<"0", "x">>}
+  IN  {l \in plain \cup seps : keep(l) /\ StyleDistinct(l) /\ IntLitType(l, P) # "?"}
 
 PlainEls == {ElCh(c) : c \in PlainChars}
 EscEls == {ElEsc(c) : c \in SimpleEscapes}
@@ -82,14 +84,14 @@ HexEls == {ElHex(ds) : ds \in {<<"0">>, <<"7", "f">>, <<"8", "0">>, <<"f", "f">>
                                <<"1", "0", "0", "0", "0">>, <<"7", "f", "f", "f", "f", "f", "f", "f">>,
                                <<"8", "0", "0", "0", "0", "0", "0", "0">>, <<"f", "f", "f", "f", "f", "f", "f", "f">>}}
 LitPrefixes == {<<>>, <<"L">>, <<"u">>, <<"U">>} \cup (IF Lang = "c++" THEN {<<"u", "8">>} ELSE {})
-MultiEls == {ElCh("a"), ElCh("b"), ElHex(<<"f", "f">>), ElOct(<<"0">>), ElEsc("n"), ElOct(<<"2", "0", "0">>), ElHex(<<"8", "0">>)}
-FewEls == {ElCh("a"), ElHex(<<"f", "f">>), ElOct(<<"0">>)}
+MultiEls == {ElCh("a"), ElCh("z"), ElHex(<<"f", "f">>), ElOct(<<"0">>), ElEsc("n"), ElOct(<<"2", "0", "0">>), ElHex(<<"8", "0">>)}
+FewEls == {ElCh("a"), ElCh("_"), ElHex(<<"f", "f">>), ElOct(<<"0">>)}
 CharLitSpellings ==
   LET single == {[prefix |-> p, elems |-> <<e>>] : p \in LitPrefixes, e \in PlainEls \cup EscEls \cup OctEls \cup HexEls}
       two == {[prefix |-> <<>>, elems |-> <<a, b>>] : a \in MultiEls, b \in MultiEls}
       three == {[prefix |-> <<>>, elems |-> <<a, b, c>>] : a \in FewEls, b \in FewEls, c \in FewEls}
-      four == {[prefix |-> <<>>, elems |-> <<a, b, c, d>>] : a \in {ElCh("a"), ElHex(<<"f", "f">>)}, b \in {ElCh("b"), ElHex(<<"f", "f">>)},
-                                                            c \in {ElCh("c"), ElOct(<<"0">>)}, d \in {ElCh("d"), ElHex(<<"f", "f">>)}}
+      four == {[prefix |-> <<>>, elems |-> <<a, b, c, d>>] : a \in {ElCh("a"), ElHex(<<"f", "f">>)}, b \in {ElCh("z"), ElHex(<<"f", "f">>)},
+                                                            c \in {ElCh("_"), ElOct(<<"0">>)}, d \in {ElCh("d"), ElHex(<<"f", "f">>)}}
   IN  {l \in single \cup two \cup three \cup four :
          /\ CharLitWellFormed(l, Lang, P)
          \* the C typedef target of wchar_t is compiler-specific on this platform: its values are, the witness type is not
@@ -124,17 +126,18 @@ MaxOf(b) == IMax(Bits(b, P), IsSigned(b, P)).mag
 SixTypes == {"int", "uint", "long", "ulong", "llong", "ullong"}
 
 \* one and the maximum of each of the six types, spelled with the suffix that selects the type (quick: fewer ones)
-TypedLeaves == {IntE(<<"1">>, SuffixOf(b)) : b \in IF Thorough THEN SixTypes ELSE {"uint", "llong"}}
+TypedLeaves == {IntE(<<"1">>, SuffixOf(b)) : b \in IF Thorough THEN SixTypes ELSE {"uint"}}
                \cup {IntE(Dec(MaxOf(b)), SuffixOf(b)) : b \in SixTypes}
 SmallLeaves(ns) == {IntE(Dec(NFromSmall(n)), <<>>) : n \in ns}
-HexLeaves == {HexE(<<"8", "0", "0", "0", "0", "0", "0", "0">>, <<>>), HexE(<<"f", "f", "f", "f", "f", "f", "f", "f">>, <<>>)}
+HexLeaves == {HexE(<<"8", "0", "0", "0", "0", "0", "0", "0">>, <<>>)}
+             \cup (IF Thorough THEN {HexE(<<"f", "f", "f", "f", "f", "f", "f", "f">>, <<>>)} ELSE {})
 ChrLeaves == {ChrE(<<ElHex(<<"f", "f">>)>>)} \cup (IF Thorough THEN {ChrE(<<ElCh("a")>>)} ELSE {})
 BoolLeaves == IF Lang = "c++" THEN {[k |-> "bool", v |-> TRUE]} ELSE {}
 
 WellTyped(e) == Eval(e, Lang, P).ok
 Leaves ==
   {e \in TypedLeaves \cup HexLeaves \cup ChrLeaves \cup BoolLeaves
-         \cup SmallLeaves(IF Thorough THEN {0, 1, 2, 3, 7, 8, 15, 16, 31, 32, 33, 63, 64} ELSE {0, 2, 31, 32})
+         \cup SmallLeaves(IF Thorough THEN {0, 1, 2, 3, 7, 8, 15, 16, 31, 32, 33, 63, 64} ELSE {0, 2, 31})
          \cup (IF Thorough THEN {IntE(Dec(NAdd(MaxOf("int"), <<1>>)), <<>>), IntE(Dec(NAdd(MaxOf("uint"), <<1>>)), <<>>),
                                  HexE(<<"7", "f", "f", "f", "f", "f", "f", "f">>, <<>>),
                                  HexE(<<"f", "f", "f", "f", "f", "f", "f", "f", "f", "f", "f", "f", "f", "f", "f", "f">>, <<>>),
@@ -142,8 +145,8 @@ Leaves ==
      WellTyped(e)}
 \* a small set for the nested stratum
 Core == {e \in {IntE(<<"1">>, <<>>), IntE(Dec(MaxOf("int")), <<>>), IntE(<<"1">>, <<"u">>), IntE(Dec(MaxOf("uint")), <<"u">>),
-                IntE(<<"1">>, <<"l", "l">>), ChrE(<<ElHex(<<"f", "f">>)>>)}
-               \cup (IF Thorough THEN {IntE(<<"2">>, <<>>), IntE(<<"1">>, <<"l">>), IntE(<<"1">>, <<"u", "l">>),
+                ChrE(<<ElHex(<<"f", "f">>)>>)}
+               \cup (IF Thorough THEN {IntE(<<"2">>, <<>>), IntE(<<"1">>, <<"l">>), IntE(<<"1">>, <<"u", "l">>), IntE(<<"1">>, <<"l", "l">>),
                                        IntE(Dec(MaxOf("ullong")), <<"u", "l", "l">>)} ELSE {}) : WellTyped(e)}
 
 ArithOps == {"+", "-", "*", "/", "%"}
@@ -223,19 +226,24 @@ IntWitness(e, r) ==
   LET signed == IsSigned(r.t, P)
       wide == IF signed THEN "(long long)" ELSE "(unsigned long long)"
   IN  SA \o TypeAssert(e, r.t) \o " && " \o wide \o "(" \o e \o ") == " \o WitnessLit(r.v, signed) \o ", \"value\");"
-\* num/den with den a power of two: both operands and the quotient are exact in binary64
-FloatWitness(e, l) ==
+\* num/den with den a power of two: both operands and the quotient are exact in binary64.  A comparison of floating
+\* values is not an integer constant expression in C: there the assertion is the size of an extern array (1 or -1),
+\* which the compiler has to fold.
+FloatWitness(i, e, l) ==
   LET f == FloatLitFrac(l)
       t == FloatLitType(l)
-  IN  SA \o TypeAssert(e, t) \o " && (" \o e \o ") == (" \o Spelling(Ty(t), Lang) \o ")("
-      \o Join(NToDecChars(f.num)) \o ".0 / " \o Join(NToDecChars(f.den)) \o ".0), \"value\");"
+      cond == TypeAssert(e, t) \o " && (" \o e \o ") == (" \o Spelling(Ty(t), Lang) \o ")("
+              \o Join(NToDecChars(f.num)) \o ".0 / " \o Join(NToDecChars(f.den)) \o ".0)"
+  IN  IF Lang = "c" THEN "extern char w" \o ToString(i) \o "[(" \o cond \o ") ? 1 : -1];"
+      ELSE SA \o cond \o ", \"value\");"
 
+CaseLineTok(i) == TokText(CaseSeq[i])
 CaseLine(i) ==
   LET x == CaseSeq[i]
       e == ExprText(x)
   IN  [id |-> i, kind |-> x.kind, rule |-> Rule(x), expr |-> e, tok |-> TokText(x), cc |-> "(void)(" \o e \o ");",
        w |-> IF SpecOnly THEN ""
-             ELSE IF IsFloatCase(x) THEN FloatWitness(e, x.c)
+             ELSE IF IsFloatCase(x) THEN FloatWitness(i, e, x.c)
              ELSE IntWitness(e, Eval(Norm(x.c), Lang, P)),
        expect |-> IF IsFloatCase(x) THEN Join(NToDecChars(FloatLitFrac(x.c).num)) \o "/" \o Join(NToDecChars(FloatLitFrac(x.c).den))
                   ELSE IToDecStr(Eval(Norm(x.c), Lang, P).v)]
@@ -278,7 +286,7 @@ Row(i, o) ==
               ELSE o.vkind = "int" /\ IsDecChars(o.val) /\ IFromDecChars(o.val) = r.v
       v == IF o.expr # ExprText(x) THEN "desync"
            ELSE IF o.vkind = "" THEN "novalue"
-           ELSE IF o.tok # TokText(x) THEN "unmapped"
+           \* (the operand of the probe's cast is the whole expression even where cppcheck rewrote it, e.g. a - (-1) to a + 1)
            ELSE IF same THEN "ok"
            ELSE IF SpecOnly THEN "spec_only_difference"
            ELSE IF o.clang # "ok" THEN "model_disagreement"
@@ -300,7 +308,7 @@ Judge(u) ==
      IN  /\ ndJsonSerialize(IOEnv.C10_OUT, notable)
          /\ PrintT(<<"C10VERDICT", "cases", Len(CaseSeq), "ok", Len(CaseSeq) - nonok, "violation", count("violation"),
                      "model_disagreement", Cardinality({i \in 1..Len(notable) : notable[i].clang = "fail"}),
-                     "novalue", count("novalue"), "unmapped", count("unmapped"),
+                     "novalue", count("novalue"), "rewritten", Cardinality({i \in 1..Len(obs) : obs[i].vkind # "" /\ obs[i].tok # CaseLineTok(i)}),
                      "spec_only_difference", count("spec_only_difference"), "desync", count("desync")>>)
 
 Probe(u) == LET r == IOExec(<<"python3", IOEnv.C10_DRIVER, IOEnv.C10_WORK>>)
